@@ -171,83 +171,99 @@ theorem evalK_sound {α : Type} (ops : Ops α) (body : Nat → Expr α) :
 with respect to the points tables of the state (`Ops.withLk`). -/
 def StInv {α : Type} (ops : Ops α) (s : St α) : Prop := MemoInv (ops.withLk s.lk) s.body s.memo
 
-/-- one operation: from a state that is dirty (`d = true`: points were written, the memo may be stale) or
-satisfies the invariant, to the next, along a settled history. -/
+/-- with the fact `rejectedIsNoOp`, cache resets are never switched off. -/
+theorem step_suspended {α : Type} (c : Cfg) (hj : c.rejectedIsNoOp = true) (ops : Ops α) (s : St α) (op : Op α)
+    (h : s.suspended = false) : (step c ops s op).suspended = false := by
+  cases op <;> simp [step, h, hj]
+
+theorem run_suspended {α : Type} (c : Cfg) (hj : c.rejectedIsNoOp = true) (ops : Ops α) (h : List (Op α)) :
+    ∀ s : St α, s.suspended = false → (run c ops s h).suspended = false := by
+  induction h with
+  | nil => intro s hs; exact hs
+  | cons op rest ih => intro s hs; exact ih _ (step_suspended c hj ops s op hs)
+
 theorem inv_step {α : Type} (c : Cfg) (hi : c.initialValueResetsCache = true)
-    (ha : c.addEquationResetsCache = true) (hr : c.resetClearsAllStores = true) (ops : Ops α) (s : St α) (op : Op α)
+    (ha : c.addEquationResetsCache = true) (hr : c.resetClearsAllStores = true) (hj : c.rejectedIsNoOp = true)
+    (ops : Ops α) (s : St α) (op : Op α) (hsus : s.suspended = false)
     (h : StInv ops s) (hop : ∀ p f, op ≠ Op.setPoints p f) (hop2 : ∀ n e, op ≠ Op.rawEq n e) :
     StInv ops (step c ops s op) := by
   cases op with
-  | setEq n e => exact memoInv_nil _ _
-  | setInit n e => simp only [step, hi, StInv]; exact memoInv_nil _ _
-  | addEq n e => simp only [step, ha, StInv]; exact memoInv_nil _ _
-  | reset => exact memoInv_nil _ _
+  | setEq n e => simp only [step, hsus, StInv]; exact memoInv_nil _ _
+  | setInit n e => simp only [step, hi, hsus, StInv]; exact memoInv_nil _ _
+  | addEq n e => simp only [step, ha, hsus, StInv]; exact memoInv_nil _ _
+  | reset => simp only [step, hsus, StInv]; exact memoInv_nil _ _
   | eval n k fuel => exact (evalK_sound (ops.withLk s.lk) s.body fuel s.memo (n, k) h).1
   | setPoints p f => exact absurd rfl (hop p f)
   | sreset => simp only [step, hr, StInv]; exact memoInv_nil _ _
   | rawEq n e => exact absurd rfl (hop2 n e)
+  | rejected => simp only [step, hj, if_true]; exact h
 
 /-- every settled history keeps the invariant: `d` tells whether points were written since the memo was last
 emptied; an evaluation only happens when `d = false`. -/
 theorem inv_run_from {α : Type} (c : Cfg) (hi : c.initialValueResetsCache = true)
-    (ha : c.addEquationResetsCache = true) (hr : c.resetClearsAllStores = true) (ops : Ops α) (h : List (Op α)) :
-    ∀ (d : Bool) (s : St α), (d = false → StInv ops s) → settledFrom d h = true →
+    (ha : c.addEquationResetsCache = true) (hr : c.resetClearsAllStores = true) (hj : c.rejectedIsNoOp = true)
+    (ops : Ops α) (h : List (Op α)) :
+    ∀ (d : Bool) (s : St α), s.suspended = false → (d = false → StInv ops s) → settledFrom d h = true →
       StInv ops (run c ops s h) := by
   induction h with
   | nil =>
-      intro d s hs hset
+      intro d s _ hs hset
       simp only [settledFrom, Bool.not_eq_true'] at hset
       exact hs hset
   | cons op rest ih =>
-      intro d s hs hset
+      intro d s hsus hs hset
       simp only [run, List.foldl_cons]
+      have hsus' := step_suspended c hj ops s op hsus
       cases op with
       | setPoints p f =>
           simp only [settledFrom] at hset
-          exact ih true _ (by intro h; cases h) hset
+          exact ih true _ hsus' (by intro h; cases h) hset
       | eval n k fuel =>
           simp only [settledFrom, Bool.and_eq_true, Bool.not_eq_true'] at hset
-          exact ih d _ (fun _ => inv_step c hi ha hr ops s _ (hs hset.1) (by intro p f h; cases h) (by intro n e h; cases h)) hset.2
+          exact ih d _ hsus' (fun _ => inv_step c hi ha hr hj ops s _ hsus (hs hset.1) (by intro p f h; cases h) (by intro n e h; cases h)) hset.2
       | setEq n e =>
           simp only [settledFrom] at hset
-          exact ih false _ (fun _ => memoInv_nil _ _) hset
+          exact ih false _ hsus' (fun _ => by simp only [step, hsus, StInv]; exact memoInv_nil _ _) hset
       | setInit n e =>
           simp only [settledFrom] at hset
-          exact ih false _ (fun _ => by simp only [step, hi, StInv]; exact memoInv_nil _ _) hset
+          exact ih false _ hsus' (fun _ => by simp only [step, hi, hsus, StInv]; exact memoInv_nil _ _) hset
       | addEq n e =>
           simp only [settledFrom] at hset
-          exact ih false _ (fun _ => by simp only [step, ha, StInv]; exact memoInv_nil _ _) hset
+          exact ih false _ hsus' (fun _ => by simp only [step, ha, hsus, StInv]; exact memoInv_nil _ _) hset
       | reset =>
           simp only [settledFrom] at hset
-          exact ih false _ (fun _ => memoInv_nil _ _) hset
+          exact ih false _ hsus' (fun _ => by simp only [step, hsus, StInv]; exact memoInv_nil _ _) hset
       | sreset =>
           simp only [settledFrom] at hset
-          exact ih false _ (fun _ => by simp only [step, hr, StInv]; exact memoInv_nil _ _) hset
+          exact ih false _ hsus' (fun _ => by simp only [step, hr, StInv]; exact memoInv_nil _ _) hset
       | rawEq n e =>
           simp only [settledFrom] at hset
-          exact ih true _ (by intro h; cases h) hset
+          exact ih true _ hsus' (by intro h; cases h) hset
+      | rejected =>
+          simp only [settledFrom] at hset
+          exact ih d _ hsus' (fun hd => by simp only [step, hj, if_true]; exact hs hd) hset
 
 theorem inv_run {α : Type} (c : Cfg) (hi : c.initialValueResetsCache = true)
-    (ha : c.addEquationResetsCache = true) (hr : c.resetClearsAllStores = true) (ops : Ops α) (h : List (Op α))
-    (hset : settled h = true) :
-    ∀ s : St α, StInv ops s → StInv ops (run c ops s h) :=
-  fun s hs => inv_run_from c hi ha hr ops h false s (fun _ => hs) hset
+    (ha : c.addEquationResetsCache = true) (hr : c.resetClearsAllStores = true) (hj : c.rejectedIsNoOp = true)
+    (ops : Ops α) (h : List (Op α)) (hset : settled h = true) :
+    ∀ s : St α, s.suspended = false → StInv ops s → StInv ops (run c ops s h) :=
+  fun s hsus hs => inv_run_from c hi ha hr hj ops h false s hsus (fun _ => hs) hset
 
 /-- **Never stale** (clause 1): after any history of edits, cache resets, points edits (settled: followed by a
 cache reset or another edit before the next evaluation) and evaluations on a model, whatever `element(t_k)`
 returns is the value a freshly built model with the final definitions and points tables yields.
 (Histories without points edits are always settled: the wave-1 statement is the special case.) -/
 def C08_seq (c : Cfg) : Prop :=
-  ∀ (α : Type) (ops : Ops α) (s0 : St α), s0.memo = [] →
+  ∀ (α : Type) (ops : Ops α) (s0 : St α), s0.memo = [] → s0.suspended = false →
   ∀ (h : List (Op α)), settled h = true → ∀ (n k f1 f2 : Nat) (v w : α),
     query ops (run c ops s0 h) n k f1 = some v →
     query ops { run c ops s0 h with memo := [] } n k f2 = some w → v = w
 
 theorem C08_fresh (c : Cfg) (hi : c.initialValueResetsCache = true)
-    (ha : c.addEquationResetsCache = true) (hr : c.resetClearsAllStores = true) : C08_seq c := by
-  intro α ops s0 h0 h hset n k f1 f2 v w hv hw
+    (ha : c.addEquationResetsCache = true) (hr : c.resetClearsAllStores = true) (hj : c.rejectedIsNoOp = true) : C08_seq c := by
+  intro α ops s0 h0 hs0 h hset n k f1 f2 v w hv hw
   have hinv : StInv ops (run c ops s0 h) :=
-    inv_run c hi ha hr ops h hset s0 (by simp only [StInv, h0]; exact memoInv_nil _ _)
+    inv_run c hi ha hr hj ops h hset s0 hs0 (by simp only [StInv, h0]; exact memoInv_nil _ _)
   have h1 := (evalK_sound (ops.withLk (run c ops s0 h).lk) (run c ops s0 h).body f1 (run c ops s0 h).memo (n, k) hinv).2 v hv
   have h2 := (evalK_sound (ops.withLk (run c ops s0 h).lk) (run c ops s0 h).body f2 [] (n, k) (memoInv_nil _ _)).2 w hw
   exact Val.det h1 h2
@@ -269,6 +285,7 @@ theorem settledFrom_false_of_noPoints {α : Type} (h : List (Op α)) (hn : ∀ o
       | reset => simp only [settledFrom]; exact ih hr hr2
       | sreset => simp only [settledFrom]; exact ih hr hr2
       | rawEq n e => exact absurd rfl (hn2 _ (List.mem_cons_self ..) n e)
+      | rejected => simp only [settledFrom]; exact ih hr hr2
 
 /-- Evaluations alone never break the invariant, whatever the Cfg says (the partial result). -/
 theorem C08_partial_evals (c : Cfg) {α : Type} (ops : Ops α) (s : St α) (hs : StInv ops s)
@@ -348,10 +365,10 @@ def wStaleInit : List (Op Int) :=
 
 theorem C08_witness_stale_init (c : Cfg) (h : c.initialValueResetsCache = false) : ¬ C08_seq c := by
   intro hf
-  have := hf Int intOps wInit rfl wStaleInit (by decide) 1 2 20 20 10 28
-  obtain ⟨i, a, f, o, r⟩ := c
+  have := hf Int intOps wInit rfl rfl wStaleInit (by decide) 1 2 20 20 10 28
+  obtain ⟨i, a, f, o, r, j⟩ := c
   simp only at h; subst h
-  cases a <;> cases f <;> cases o <;> cases r <;> exact absurd (this (by decide) (by decide)) (by decide)
+  cases a <;> cases f <;> cases o <;> cases r <;> cases j <;> exact absurd (this (by decide) (by decide)) (by decide)
 
 /-- `c = 1+1 (converter 1); k = c*3 (converter 2); k(t_0); model.add_equation('c', lambda t: 5)` -/
 def wStaleAdd : List (Op Int) :=
@@ -359,14 +376,14 @@ def wStaleAdd : List (Op Int) :=
 
 theorem C08_witness_stale_add (c : Cfg) (h : c.addEquationResetsCache = false) : ¬ C08_seq c := by
   intro hf
-  have := hf Int intOps wInit rfl wStaleAdd (by decide) 2 0 20 20 6 15
-  obtain ⟨i, a, f, o, r⟩ := c
+  have := hf Int intOps wInit rfl rfl wStaleAdd (by decide) 2 0 20 20 6 15
+  obtain ⟨i, a, f, o, r, j⟩ := c
   simp only at h; subst h
-  cases i <;> cases f <;> cases o <;> cases r <;> exact absurd (this (by decide) (by decide)) (by decide)
+  cases i <;> cases f <;> cases o <;> cases r <;> cases j <;> exact absurd (this (by decide) (by decide)) (by decide)
 
 /-- Non-vacuity of part (a): a history with every kind of operation whose final query is defined and
 equals the fresh value (stock 0 with init 10, inflow 2·dt per step; k = 2·s ⇒ k(t_2) = 28). -/
-example : query intOps (run ⟨true, true, true, true, true⟩ intOps wInit
+example : query intOps (run ⟨true, true, true, true, true, true⟩ intOps wInit
     (wStaleInit ++ [.eval 1 2 20, .reset, .addEq 3 (.lit 7), .eval 1 1 20])) 1 2 20 = some 28 := by decide
 
 
@@ -452,16 +469,16 @@ theorem evalK_complete {α : Type} (ops : Ops α) (body : Nat → Expr α) (key 
 freshly built model yields `w` for `element(t_k)` (its recursion ends within some fuel), then the edited model
 with its memo also terminates — for every fuel from some bound on — and returns that same `w`. -/
 def C08_term (c : Cfg) : Prop :=
-  ∀ (α : Type) (ops : Ops α) (s0 : St α), s0.memo = [] →
+  ∀ (α : Type) (ops : Ops α) (s0 : St α), s0.memo = [] → s0.suspended = false →
   ∀ (h : List (Op α)), settled h = true → ∀ (n k f2 : Nat) (w : α),
     query ops { run c ops s0 h with memo := [] } n k f2 = some w →
     ∃ f0, ∀ f1, f0 ≤ f1 → query ops (run c ops s0 h) n k f1 = some w
 
 theorem C08_fresh_terminates (c : Cfg) (hi : c.initialValueResetsCache = true)
-    (ha : c.addEquationResetsCache = true) (hr : c.resetClearsAllStores = true) : C08_term c := by
-  intro α ops s0 h0 h hset n k f2 w hw
+    (ha : c.addEquationResetsCache = true) (hr : c.resetClearsAllStores = true) (hj : c.rejectedIsNoOp = true) : C08_term c := by
+  intro α ops s0 h0 hs0 h hset n k f2 w hw
   have hinv : StInv ops (run c ops s0 h) :=
-    inv_run c hi ha hr ops h hset s0 (by simp only [StInv, h0]; exact memoInv_nil _ _)
+    inv_run c hi ha hr hj ops h hset s0 hs0 (by simp only [StInv, h0]; exact memoInv_nil _ _)
   have hF : Fresh (ops.withLk (run c ops s0 h).lk) (run c ops s0 h).body (n, k) w :=
     (evalK_sound (ops.withLk (run c ops s0 h).lk) (run c ops s0 h).body f2 [] (n, k) (memoInv_nil _ _)).2 w hw
   obtain ⟨f0, hf0⟩ := evalK_complete _ _ (n, k) w hF
@@ -547,14 +564,14 @@ theorem val_total {α : Type} (ops : Ops α) (body : Nat → Expr α) (μ : Key 
 /-- **C08_total**: on an acyclic model (acyclic under the FINAL definitions), after any settled history both the
 edited model with its memo and the freshly built model terminate, and with the same value. -/
 theorem C08_total (c : Cfg) (hi : c.initialValueResetsCache = true) (ha : c.addEquationResetsCache = true)
-    (hr : c.resetClearsAllStores = true)
-    {α : Type} (ops : Ops α) (s0 : St α) (h0 : s0.memo = []) (h : List (Op α)) (hset : settled h = true)
+    (hr : c.resetClearsAllStores = true) (hj : c.rejectedIsNoOp = true)
+    {α : Type} (ops : Ops α) (s0 : St α) (h0 : s0.memo = []) (hs0 : s0.suspended = false) (h : List (Op α)) (hset : settled h = true)
     (μ : Key → Nat) (hA : Acyclic (run c ops s0 h).body μ) (n k : Nat) :
     ∃ v f0, ∀ f, f0 ≤ f →
       query ops (run c ops s0 h) n k f = some v ∧
       query ops { run c ops s0 h with memo := [] } n k f = some v := by
   have hinv : StInv ops (run c ops s0 h) :=
-    inv_run c hi ha hr ops h hset s0 (by simp only [StInv, h0]; exact memoInv_nil _ _)
+    inv_run c hi ha hr hj ops h hset s0 hs0 (by simp only [StInv, h0]; exact memoInv_nil _ _)
   obtain ⟨v, hv⟩ := val_total (ops.withLk (run c ops s0 h).lk) _ μ hA (n, k)
   obtain ⟨f0, hf0⟩ := evalK_complete _ _ (n, k) v hv
   exact ⟨v, f0, fun f hf => ⟨hf0 f hf _ hinv, hf0 f hf [] (memoInv_nil _ _)⟩⟩
@@ -584,15 +601,15 @@ shows the same on the real code: `model.points` is a plain dict) -/
 /-- `k = LOOKUP(3, "p0")`; `k(t_0)`; `model.points["p0"] = <other table>`; `k(t_0)` again: the memo answers 3, a
 fresh model 103. -/
 theorem points_unsettled_stale :
-    query intOps (run ⟨true, true, true, true, true⟩ intOps wInit
+    query intOps (run ⟨true, true, true, true, true, true⟩ intOps wInit
         [.setEq 1 (.lookup 0 (.lit 3)), .eval 1 0 20, .setPoints 0 (fun x => x + 100)]) 1 0 20 = some 3 ∧
-    query intOps { run ⟨true, true, true, true, true⟩ intOps wInit
+    query intOps { run ⟨true, true, true, true, true, true⟩ intOps wInit
         [.setEq 1 (.lookup 0 (.lit 3)), .eval 1 0 20, .setPoints 0 (fun x => x + 100)] with memo := [] } 1 0 20
       = some 103 := by decide
 
 /-- … and settled by a `reset_cache` it is fresh again (non-vacuity of the points clause of `C08_seq`). -/
 example : settled ([.setEq 1 (.lookup 0 (.lit 3)), .eval 1 0 20, .setPoints 0 (fun x => x + 100), .reset] : List (Op Int)) = true ∧
-    query intOps (run ⟨true, true, true, true, true⟩ intOps wInit
+    query intOps (run ⟨true, true, true, true, true, true⟩ intOps wInit
         [.setEq 1 (.lookup 0 (.lit 3)), .eval 1 0 20, .setPoints 0 (fun x => x + 100), .reset]) 1 0 20 = some 103 := by
   decide
 
@@ -688,6 +705,7 @@ def settledSelFrom {α : Type} : Bool → List (Op α) → Bool
   | _, .reset :: r => settledSelFrom false r
   | _, .sreset :: r => settledSelFrom false r
   | _, .rawEq _ _ :: r => settledSelFrom true r
+  | d, .rejected :: r => settledSelFrom d r
   | d, .setEq _ _ :: r => settledSelFrom d r
   | d, .setInit _ _ :: r => settledSelFrom d r
   | d, .addEq _ _ :: r => settledSelFrom d r
@@ -719,6 +737,9 @@ theorem inv_run_sel_from {α : Type} (sel : St α → Nat → Nat → Bool) (hc 
       | rawEq n e =>
           simp only [settledSelFrom] at hset
           exact ih true _ (by intro h; cases h) hset
+      | rejected =>
+          simp only [settledSelFrom] at hset
+          exact ih d _ hs hset
       | setEq n e =>
           simp only [settledSelFrom] at hset
           exact ih d _ (fun hd => memoInv_clearSel _ s.body s.memo n _ (sel s n) (hc s n) (hs hd)) hset
@@ -751,21 +772,21 @@ theorem clearSel_all {α : Type} (m : Memo α) : clearSel m (fun _ => true) = []
 
 theorem stepSel_all_eq_step {α : Type} (c : Cfg) (hi : c.initialValueResetsCache = true)
     (ha : c.addEquationResetsCache = true) (ho : c.operandsThroughMemo = true) (hr : c.resetClearsAllStores = true)
-    (ops : Ops α) (s : St α) (op : Op α) :
+    (hj : c.rejectedIsNoOp = true) (ops : Ops α) (s : St α) (hsus : s.suspended = false) (op : Op α) :
     stepSel selAll ops s op = step c ops s op := by
   have hall : ∀ n, clearSel s.memo (selAll s n) = [] := fun n => clearSel_all s.memo
-  cases op <;> simp [stepSel, step, installed, hall, hi, ha, ho, hr]
+  cases op <;> simp [stepSel, step, installed, hall, hi, ha, ho, hr, hj, hsus]
 
 theorem runSel_all_eq_run {α : Type} (c : Cfg) (hi : c.initialValueResetsCache = true)
     (ha : c.addEquationResetsCache = true) (ho : c.operandsThroughMemo = true) (hr : c.resetClearsAllStores = true)
-    (ops : Ops α) (h : List (Op α)) :
-    ∀ s : St α, runSel selAll ops s h = run c ops s h := by
+    (hj : c.rejectedIsNoOp = true) (ops : Ops α) (h : List (Op α)) :
+    ∀ s : St α, s.suspended = false → runSel selAll ops s h = run c ops s h := by
   induction h with
-  | nil => intro s; rfl
+  | nil => intro s _; rfl
   | cons op rest ih =>
-      intro s
+      intro s hsus
       simp only [runSel, run, List.foldl_cons] at ih ⊢
-      rw [stepSel_all_eq_step c hi ha ho hr]; exact ih _
+      rw [stepSel_all_eq_step c hi ha ho hr hj ops s hsus]; exact ih _ (step_suspended c hj ops s op hsus)
 
 /-! ### an incomplete users relation is unsound (the `\w+` name matcher) -/
 
@@ -1091,13 +1112,13 @@ def wSched : List Nat := [0, 0, 1, 1, 0, 1, 0, 1]
 theorem C08_witness_race (c : Cfg) (h : c.memoizeFirstStoreWins = false) : ¬ C08_conc c := by
   intro hf
   have := hf Int wSys [] [[(0, 0)], [(0, 0)]] wSched
-  obtain ⟨i, a, f, o, r⟩ := c
+  obtain ⟨i, a, f, o, r, j⟩ := c
   simp only at h; subst h
-  cases i <;> cases a <;> cases o <;> cases r <;> exact absurd this (by decide)
+  cases i <;> cases a <;> cases o <;> cases r <;> cases j <;> exact absurd this (by decide)
 
 /-- Non-vacuity of part (b): the same racing schedule under the first-store rule — both workers
 finish and both report the value stored first (0); and a 2-level deterministic system finishes. -/
-example : (exec ⟨true, true, true, true, true⟩ wSys (initC [] [[(0, 0)], [(0, 0)]]) wSched).log
+example : (exec ⟨true, true, true, true, true, true⟩ wSys (initC [] [[(0, 0)], [(0, 0)]]) wSched).log
     = [(none, (0, 0), 0), (none, (0, 0), 0)] := by decide
 
 /-! ## (wave 6) definitions are read through the memo, never copied
@@ -1133,17 +1154,17 @@ theorem C08_witness_baked (c : Cfg) (h : c.operandsThroughMemo = false) : ¬ C08
   intro hd
   have h1 := hd Int intOps (run c intOps wInit [.setEq 1 (.lit 2)]) 2 (.bin 2 (.ref 1) (.lit 3))
   have h2 := congrArg (fun b => (evalE intOps (fun m _ => (m, some (7 : Int))) b 0 []).2) h1
-  obtain ⟨i, a, f, o, r⟩ := c
+  obtain ⟨i, a, f, o, r, j⟩ := c
   simp only at h; subst h
   revert h2
-  cases i <;> cases a <;> cases f <;> cases r <;> decide
+  cases i <;> cases a <;> cases f <;> cases r <;> cases j <;> decide
 
 /-- … and the edited model is then stale against a model built from the final definitions although every memo was
 reset: `c = 2; k = c*3; c = 5; k(t_0)` answers 6; defining in the order `c = 5; k = c*3` (the final definitions) 15. -/
 theorem baked_is_stale :
-    query intOps (run ⟨true, true, true, false, true⟩ intOps wInit
+    query intOps (run ⟨true, true, true, false, true, true⟩ intOps wInit
       [.setEq 1 (.lit 2), .setEq 2 (.bin 2 (.ref 1) (.lit 3)), .setEq 1 (.lit 5)]) 2 0 20 = some 6 ∧
-    query intOps (run ⟨true, true, true, true, true⟩ intOps wInit
+    query intOps (run ⟨true, true, true, true, true, true⟩ intOps wInit
       [.setEq 1 (.lit 2), .setEq 2 (.bin 2 (.ref 1) (.lit 3)), .setEq 1 (.lit 5)]) 2 0 20 = some 15 := by decide
 
 /-! ## (wave 8) every reset path clears every store the lookup consults
@@ -1169,27 +1190,52 @@ def wStoreHist : List (Op Int) :=
 
 theorem C08_witness_second_store (c : Cfg) (h : c.resetClearsAllStores = false) : ¬ C08_seq c := by
   intro hf
-  have := hf Int intOps wInit rfl wStoreHist (by decide) 2 0 20 20 6 15
-  obtain ⟨i, a, f, o, r⟩ := c
+  have := hf Int intOps wInit rfl rfl wStoreHist (by decide) 2 0 20 20 6 15
+  obtain ⟨i, a, f, o, r, j⟩ := c
   simp only at h; subst h
-  cases i <;> cases a <;> cases f <;> cases o <;> exact absurd (this (by decide) (by decide)) (by decide)
+  cases i <;> cases a <;> cases f <;> cases o <;> cases j <;> exact absurd (this (by decide) (by decide)) (by decide)
+
+/-! ## (wave 10) a rejected call leaves the model as it was -/
+
+/-- **an API call the code rejects with an exception is a no-op**: the state after it is the state before it (in
+particular, later edits still empty the stores). -/
+def C08_rejected (c : Cfg) : Prop :=
+  ∀ (α : Type) (ops : Ops α) (s : St α), step c ops s .rejected = s
+
+theorem C08_rejected_of_fact (c : Cfg) (h : c.rejectedIsNoOp = true) : C08_rejected c := by
+  intro α ops s; simp [step, h]
+
+/-- **a suspension counter left raised**: `c = 1+1; k = c*3; k(t_0)`; a set-up call that raises; `c.equation = 5`;
+`k(t_0)` still answers 6 (the edit's cache reset is a no-op from then on), a freshly built model 15. -/
+def wRejectHist : List (Op Int) :=
+  [.setEq 1 (.bin 0 (.lit 1) (.lit 1)), .setEq 2 (.bin 2 (.ref 1) (.lit 3)), .eval 2 0 20, .rejected, .setEq 1 (.lit 5)]
+
+theorem C08_witness_rejected (c : Cfg) (h : c.rejectedIsNoOp = false) : ¬ C08_seq c := by
+  intro hf
+  have := hf Int intOps wInit rfl rfl wRejectHist (by decide) 2 0 20 20 6 15
+  obtain ⟨i, a, f, o, r, j⟩ := c
+  simp only at h; subst h
+  cases i <;> cases a <;> cases f <;> cases o <;> cases r <;> exact absurd (this (by decide) (by decide)) (by decide)
 
 /-! ## The full property -/
 
 /-- never stale (partial correctness, `C08_seq`) ∧ the edited model terminates whenever the fresh one does, with
 the same value (`C08_term`, wave 2) ∧ never ambiguous (`C08_conc`). -/
-def C08_full (c : Cfg) : Prop := C08_seq c ∧ C08_term c ∧ C08_conc c ∧ C08_defs c ∧ C08_stores c
+def C08_full (c : Cfg) : Prop := C08_seq c ∧ C08_term c ∧ C08_conc c ∧ C08_defs c ∧ C08_stores c ∧ C08_rejected c
 
 theorem C08_full_of_good (c : Cfg) (h : c.good = true) : C08_full c := by
   simp only [Cfg.good, Bool.and_eq_true] at h
-  exact ⟨C08_fresh c h.1.1.1.1 h.1.1.1.2 h.2, C08_fresh_terminates c h.1.1.1.1 h.1.1.1.2 h.2,
-    C08_stochastic_threads c h.1.1.2, C08_defs_of_fact c h.1.2, C08_stores_of_fact c h.2⟩
+  exact ⟨C08_fresh c h.1.1.1.1.1 h.1.1.1.1.2 h.1.2 h.2, C08_fresh_terminates c h.1.1.1.1.1 h.1.1.1.1.2 h.1.2 h.2,
+    C08_stochastic_threads c h.1.1.1.2, C08_defs_of_fact c h.1.1.2, C08_stores_of_fact c h.1.2, C08_rejected_of_fact c h.2⟩
 
 theorem C08_witness_baked_full (c : Cfg) (h : c.operandsThroughMemo = false) : ¬ C08_full c :=
   fun hf => C08_witness_baked c h hf.2.2.2.1
 
 theorem C08_witness_second_store_full (c : Cfg) (h : c.resetClearsAllStores = false) : ¬ C08_full c :=
   fun hf => C08_witness_second_store c h hf.1
+
+theorem C08_witness_rejected_full (c : Cfg) (h : c.rejectedIsNoOp = false) : ¬ C08_full c :=
+  fun hf => C08_witness_rejected c h hf.1
 
 theorem C08_witness_stale_init_full (c : Cfg) (h : c.initialValueResetsCache = false) : ¬ C08_full c :=
   fun hf => C08_witness_stale_init c h hf.1
@@ -1224,6 +1270,8 @@ theorem C08_witness_race_full (c : Cfg) (h : c.memoizeFirstStoreWins = false) : 
 #print axioms C08_witness_baked_full
 #print axioms C08_stores_of_fact
 #print axioms C08_witness_second_store_full
+#print axioms C08_rejected_of_fact
+#print axioms C08_witness_rejected_full
 #print axioms baked_is_stale
 
 end Bptk.C08
